@@ -535,6 +535,60 @@ fn generated_updates() -> Vec<Upd1> {
             out.push(Upd1 { clients: vec![(6, 2, vec![item.clone()]), (5, 0, vec![Blk::Gc(1)])], ds: vec![] });
         }
     }
+    // v2 column codecs: every per-block field of the v2 form lives in its own run-length / diff-run-length
+    // column, so runs only show with several blocks. Every sequence of k values over a small alphabet, per column.
+    let item = |origin: Option<(u64, u32)>, right: Option<(u64, u32)>, sub: Option<&str>, s: &str| Blk::Item {
+        origin,
+        right,
+        parent_name: if origin.is_none() && right.is_none() { Some(if sub.is_some() { "m".into() } else { "t".into() }) } else { None },
+        parent_id: None,
+        parent_sub: sub.map(|x| x.to_string()),
+        content: Content::Str(s.into()),
+    };
+    fn seqs(alphabet: usize, k: usize) -> Vec<Vec<usize>> {
+        let mut out = vec![vec![]];
+        for _ in 0..k {
+            out = out.into_iter().flat_map(|p| (0..alphabet).map(move |a| { let mut q = p.clone(); q.push(a); q })).collect();
+        }
+        out
+    }
+    let clocks = [0u32, 1, 2, 3, 5, 9];
+    for k in [3usize, 4] {
+        for sq in seqs(clocks.len(), k) {
+            // left-origin clocks (runs of equal positive / zero / negative differences), then right-origin clocks
+            out.push(Upd1 { clients: vec![(5, 0, sq.iter().map(|&i| item(Some((3, clocks[i])), None, None, "x")).collect())], ds: vec![] });
+            out.push(Upd1 { clients: vec![(5, 0, sq.iter().map(|&i| item(None, Some((3, clocks[i])), None, "x")).collect())], ds: vec![] });
+        }
+    }
+    for sq in seqs(3, 4) {
+        // origin clients (3 | 4 | 1<<40), content lengths (1 | 2 | 3 units), map keys (a | b | none)
+        let cl = [3u64, 4, 1 << 40];
+        out.push(Upd1 { clients: vec![(5, 0, sq.iter().map(|&i| item(Some((cl[i], 1)), Some((cl[(i + 1) % 3], 2)), None, "x")).collect())], ds: vec![] });
+        let st = ["x", "xy", "x\u{1f600}"];
+        out.push(Upd1 { clients: vec![(5, 0, sq.iter().map(|&i| item(Some((3, 0)), None, None, st[i])).collect())], ds: vec![] });
+        let ks = [Some("a"), Some("b"), None];
+        out.push(Upd1 { clients: vec![(5, 0, sq.iter().map(|&i| item(None, None, ks[i], "x")).collect())], ds: vec![] });
+        // block kinds in a row (info column): item | gc | skip-free deleted
+        let kinds = |i: usize| match i {
+            0 => item(Some((3, 0)), None, None, "x"),
+            1 => Blk::Gc(2),
+            _ => Blk::Item { origin: Some((3, 0)), right: None, parent_name: None, parent_id: None, parent_sub: None, content: Content::Deleted(3) },
+        };
+        out.push(Upd1 { clients: vec![(5, 0, sq.iter().map(|&i| kinds(i)).collect())], ds: vec![] });
+    }
+    // delete-set column: every set of clocks 0..6 of one client as ranges, plus a second client
+    for mask in 1u32..64 {
+        let mut ranges: Vec<(u32, u32)> = Vec::new();
+        for c in 0..6u32 {
+            if mask & (1 << c) != 0 {
+                match ranges.last_mut() {
+                    Some((s, l)) if *s + *l == c => *l += 1,
+                    _ => ranges.push((c, 1)),
+                }
+            }
+        }
+        out.push(Upd1 { clients: vec![(5, 0, vec![Blk::Gc(1)])], ds: vec![(5, vec![(0, 1)]), (7, ranges.clone())] });
+    }
     out
 }
 
